@@ -31,7 +31,12 @@ def check(ctx, R):
         record_generator(ctx, R, roles, T)
         _pull(ctx, R, roles, T)
         _pull_public(ctx, R, roles, T)
+        buffer_access(ctx, R, roles)
     _txinfo(ctx, R, T)
+    from .c03 import _read_exact as read_exact_rules, _packet_reader as packet_reader_rules
+    for roles in all_roles(ctx):
+        read_exact_rules(ctx, R, roles, T)        # "all read fragmentations"
+        packet_reader_rules(ctx, R, roles, T)
     arg_rule(ctx, R, "files", "ARG-files", min_count=10)
     R.assume("struct.unpack / bytearray slicing behave as documented; stream.write writes all bytes it is given")
 
@@ -380,3 +385,28 @@ def _txinfo(ctx, R, T):
     R.check(T.attr(obj, "recv_message_format") == ("p", "recv_message_format"), "REC", cls.qualname + "|format", "record format stored unchanged", None, init.loc())
     rb = T.attr(obj, "recv_buffer")
     R.check(rb == ("call", "builtins.bytearray", (), ()), "REC", cls.qualname + "|recv-empty", "receive buffer starts empty", "receive buffer starts as %s" % show(rb), init.loc())
+
+
+def buffer_access(ctx, R, roles, rule="BUF-access"):
+    """The sync receive buffer is consumed only by the buffered reader (and fed by it and by the flush's early-WRTE branch)."""
+    from ..dataflow import vars_in
+    allowed = {"_filesync_read_buffered", "_filesync_flush"}
+    n = 0
+    funcs = list(roles.mod.all_funcs) + list(ctx.pkg.mod("hidden_helpers").all_funcs)
+    for f in funcs:
+        if f.qualname == "hidden_helpers._FileSyncTransactionInfo.__init__":
+            continue
+        for node in walk_own_nodes(f):
+            if isinstance(node, ast.Attribute) and node.attr == "recv_buffer":
+                n += 1
+                ok = f.name in allowed and f.cls is roles.dev_cls
+                if f.mod.name == "hidden_helpers":
+                    ok = False
+                R.check(ok, rule, "%s|recv_buffer" % f.qualname, "receive buffer touched by the buffered reader / the flush only",
+                        "%s reads or writes the sync receive buffer directly: bytes are taken from (or peeked in) the record stream without going through the record reader" % f.qualname, f.loc(node))
+    return n
+
+
+def walk_own_nodes(f):
+    from ..loader import walk_own
+    return walk_own(f.node)
